@@ -4,7 +4,7 @@ LEVEL = "model_checking"
 SRC = ["h/h_c10.c", "wrap/w_call_out.c"]
 
 def build(ck):
-    return {"h_c10": ck.harness("h_c10", SRC)}
+    return {"h_c10": ck.harness("h_c10", SRC), "h_c10_plain": ck.harness("h_c10", SRC, profile="plain")}
 
 RULE = ("all histories of depth D over 20 top-level ops {tick spacing 1,2,31,32,33,70; call_out delay 1,-1,2,31,32,33,64 on A; "
         "funptr call_out 1,32; call_out 2,32 on clone B; destruct B; remove by handle/by name; remove all} on the real "
@@ -18,8 +18,9 @@ def run(ck):
     if ck.tier == "quick":
         ck.explore(exe, ["--depth=3"], "d3", budget=1, deadline_s=600)
     else:
-        ck.explore(exe, ["--depth=3"], "d3", budget=2, deadline_s=900)
-        ck.explore(exe, ["--depth=4"], "d4", budget=1, deadline_s=2400)
+        # sanitized build at the quick bound with one more deviation; plain build (5x cheaper fork) one step deeper
+        ck.explore(exe, ["--depth=3"], "d3", budget=2, deadline_s=1200)
+        ck.explore(build(ck)["h_c10_plain"], ["--depth=4"], "d4-plain", budget=1, deadline_s=1800)
     ck.finish(vlib.mc_coverage(ck.parts, RULE),
               assumptions=["time is the harness's virtual clock; current_time is set and call_out() called as call_heart_beat() does",
                            "call_outs of a destructed owner are not probed with find/remove (statement only says they are dropped)",
